@@ -9,3 +9,10 @@ package oc
 //@   pure
 //@   modifies nothing
 //@   ensures result == (n.Config.PeerAs != n.Config.LocalAs)
+
+// the families configured for the neighbour, with the ADD-PATH directions configured for each
+//@ func (*Neighbor).CreateRfMap
+//@   requires n != nil
+//@   claims frame post
+//@   modifies nothing
+//@   ensures result != nil && fresh(result)
